@@ -513,7 +513,7 @@ def check_cfg(run, lst, ob):
         name = edge_label.get((m[0], m[1], m[2]))
         if name is None or m[2] not in ("branch", "call"):
             continue
-        got = ob.symbols.get(name)
+        got = obs_symbol(ob, name)
         if not got or len(got) != 1:
             continue
         got = got[0]
@@ -532,7 +532,7 @@ def check_cfg(run, lst, ob):
     # follow the label as well
     displaced_sites = set()
     for (si, t, site, ctgt) in calls:
-        got = ob.symbols.get(t.target)
+        got = obs_symbol(ob, t.target)
         if site is None or not got or len(got) != 1 or ctgt[0] != "pos":
             continue
         g = got[0]
@@ -765,6 +765,18 @@ def input_label_functions(case):
                 for nme in b.get("labels", []):
                     res[nme] = fn_of.get(b["id"])
     return res
+
+
+def obs_symbol(ob, name):
+    """observed referents of a label; a temporary label's module symbol
+    carries a per-patch suffix"""
+    got = ob.symbols.get(name)
+    if got is None and name is not None and name.startswith(".L"):
+        cands = [n for n in ob.symbols if n.startswith(name + "_")
+                 and n[len(name) + 1:].isdigit()]
+        if len(cands) == 1:
+            got = ob.symbols[cands[0]]
+    return got
 
 
 def input_return_site_blocks(case, isa):
